@@ -220,6 +220,38 @@ theorem codeAt_eq_stepAt (oldT oldC : List Rat) (hp : oldT.Pairwise (· < ·)) (
       rw [stepAt_ge_all oldT oldC t (mem_le_last hp hlast), hl]; rfl
     · rfl
 
+/-- `stepAt` never reads the coefficient of index `len(tlist) - 1` -/
+theorem stepAt_normCoeff (tl cs : List Rat) (t : Rat) (hlen : cs.length + 1 = tl.length ∨ cs.length = tl.length) :
+    stepAt tl (normCoeff true tl cs) t = stepAt tl cs t := by
+  unfold normCoeff
+  rcases hlen with h | h
+  · have : (cs.length == tl.length) = false := by simp; omega
+    simp [this]
+  · have : (cs.length == tl.length) = true := by simp [h]
+    simp only [Bool.true_and, this, if_true]
+    by_cases hnil : cs = []
+    · subst hnil
+      have : tl = [] := by cases tl <;> simp_all
+      subst this; simp [stepAt]
+    · have hd : (cs.dropLast).length + 1 = cs.length := by
+        have := List.length_dropLast (xs := cs)
+        have : 0 < cs.length := List.length_pos_iff.mpr hnil
+        omega
+      rw [stepAt_append tl cs.dropLast [0] t (by omega)]
+      conv => rhs; rw [← List.dropLast_concat_getLast hnil]
+      rw [stepAt_append tl cs.dropLast [cs.getLast hnil] t (by omega)]
+
+theorem lastZero_normCoeff (tl cs : List Rat) (hlen : cs.length + 1 = tl.length ∨ cs.length = tl.length) (h2 : 2 ≤ tl.length) :
+    LastZero tl (normCoeff true tl cs) := by
+  unfold normCoeff
+  rcases hlen with h | h
+  · have : (cs.length == tl.length) = false := by simp; omega
+    simp only [Bool.true_and, this]; exact Or.inl h
+  · have : (cs.length == tl.length) = true := by simp [h]
+    simp only [Bool.true_and, this, if_true]
+    refine Or.inr ⟨?_, by simp⟩
+    simp; omega
+
 /-! ### piecewise constancy -/
 
 theorem stepAt_const (tl cs : List Rat) (a b t : Rat) (hno : ∀ p ∈ tl, p ≤ a ∨ b ≤ p) (hat : a ≤ t) (htb : t < b) :
